@@ -104,6 +104,54 @@ func genNodeCase(seed uint64, tier, focus, variant string) *simk.Case {
 		return c
 	}
 
+	// C14 template: bursts of submissions whose source and creation time coincide, mixing ordinary
+	// and clock-less bundles and both submission paths, with and without a connected peer
+	if focus == "C14" && r.Bool(0.5) {
+		np = r.Range(0, 2)
+		c.Cfg["peers"] = np
+		ex.Bundles = ex.Bundles[:0]
+		nb := r.Range(3, 8)
+		for i := 0; i < nb; i++ {
+			sp := genSpec(r, i, np, focus, algo)
+			sp.Src, sp.Prev, sp.Seq, sp.HopLimit, sp.Unknown, sp.Spray, sp.Flags, sp.ReportTo = simNodeEID+"app", 0, 0, -1, nil, 0, 0, ""
+			if r.Bool(0.2) {
+				sp.Src = simNodeEID + "app2"
+			}
+			sp.Dst = "dtn://r1/svc"
+			if np > 0 && r.Bool(0.5) {
+				sp.Dst = "dtn://p1/svc"
+			}
+			sp.LifeMs = 7200000
+			if r.Bool(0.35) {
+				sp.CT, sp.AgeMs = "zero", int64(r.Pick(0, 1, 500))
+			} else {
+				sp.CT, sp.AgeMs = "now", -1
+			}
+			ex.Bundles = append(ex.Bundles, sp)
+		}
+		for p := 1; p <= np; p++ {
+			if r.Bool(0.7) {
+				c.Ops = append(c.Ops, simk.Op{K: "peer_up", P: p})
+			}
+		}
+		for i := 0; i < nb; i++ {
+			k := "submit"
+			if r.Bool(0.4) {
+				k = "submit_agent"
+			}
+			c.Ops = append(c.Ops, simk.Op{K: k, B: i})
+			if r.Bool(0.2) {
+				c.Ops = append(c.Ops, simk.Op{K: "advance", N: int64(r.Pick(1, 3, 700))})
+			}
+		}
+		for p := 1; p <= np; p++ {
+			c.Ops = append(c.Ops, simk.Op{K: "peer_up", P: p})
+		}
+		c.Ops = append(c.Ops, simk.Op{K: "advance", N: 11000})
+		c.Cfg["extra"] = ex
+		return c
+	}
+
 	nops := r.Range(4, 24)
 	if tier == "thorough" && r.Bool(0.3) {
 		nops = r.Range(20, 60)
@@ -344,6 +392,44 @@ func genDtlsrOps(c *simk.Case, r *simk.Rand, ex *nodeExtra, np, nb int, tier str
 		if sp.Dst == simPeerEID(sp.Prev) {
 			sp.Prev = 0
 		}
+	}
+	// template: two or three neighbours that each report a (lost or live) link to the same far node,
+	// with loss times and record timestamps drawn independently; then a recompute tick and probes
+	if np >= 2 && r.Bool(0.4) {
+		far := r.Pick(11, 12, 13)
+		k := r.Range(2, np)
+		perm := r.Perm(np)[:k]
+		for _, p := range perm {
+			c.Ops = append(c.Ops, simk.Op{K: "peer_up", P: p + 1})
+		}
+		c.Ops = append(c.Ops, simk.Op{K: "advance", N: int64(r.Pick(1200, 6000, 30000))})
+		el := 1000
+		for _, p := range perm {
+			lt := 0
+			if r.Bool(0.8) {
+				lt = r.Range(-300000, el) + 1
+				if lt == 0 {
+					lt = 1
+				}
+			}
+			c.Ops = append(c.Ops, simk.Op{K: "ls", P: r.Pick(0, p+1), M: int64(p + 1), N: int64(r.Range(-100000, el)), X: []int{far, lt}})
+		}
+		if r.Bool(0.3) {
+			c.Ops = append(c.Ops, simk.Op{K: "ls", P: 0, M: int64(far), N: int64(r.Range(-100000, el)), X: []int{r.Pick(11, 12, 13), 0}})
+		}
+		c.Ops = append(c.Ops, simk.Op{K: "advance", N: int64(r.Pick(5500, 11000))})
+		for i := range ex.Bundles {
+			if i < 4 {
+				ex.Bundles[i].Dst = lsNode(far)
+				ex.Bundles[i].Prev = 0
+				c.Ops = append(c.Ops, simk.Op{K: "deliver", B: i})
+				if r.Bool(0.5) {
+					c.Ops = append(c.Ops, simk.Op{K: "advance", N: int64(r.Pick(1100, 5200, 20000))})
+				}
+			}
+		}
+		c.Cfg["extra"] = *ex
+		return c
 	}
 	n := r.Range(8, 40)
 	if tier == "thorough" && r.Bool(0.3) {
